@@ -56,7 +56,7 @@ def run(ctx):
         P2 = dict(P)
         P2["design"] = []
         P2["gen"] = {"module": "Gen_PolicySync", "cfg": "Gen_sim.cfg", "simulate": {"num": 30, "depth": 400},
-                     "thorough_simulate": {"num": 2500, "depth": 400}, "timeout": 600, "thorough_timeout": 1700}
+                     "thorough_simulate": {"num": 600, "depth": 400}, "timeout": 600, "thorough_timeout": 1700}
         P2["n_random"] = (0, 0)
         pipeline.standard_check(ctx, P2)
 
